@@ -5,7 +5,7 @@ binarizer(decision, reward) computed by the harness with the binarizer *in force
 add_arm(arm, new_binarizer) the new one).  Same seed, same call sequence, outputs compared bit-for-bit at
 every query.
 
-As built: Extras: rating-like rewards (repeated (decision, reward) pairs across an add_arm), a few 24000-31000-row batches with n_jobs in {2,3,-1}.
+As built: Extras: rating-like rewards (repeated (decision, reward) pairs across an add_arm), a few 24000-31000-row batches with n_jobs in {2,3,-1}; integer rewards 2^53 + k in int64 arrays with a binarizer that decides on their low bits.
 """
 from mon import env  # noqa: F401
 import copy
@@ -21,7 +21,7 @@ RULE = ("ThompsonSampling alone and under Radius/KNearest/LSHNearest/Clusters/Tr
         "thresholds inside/outside (0,1), inverted, >=0, constant) x rewards in [0,10) x histories fit + partial_fit + add_arm "
         "with/without a new binarizer + remove_arm; non-trivial = binarizer not the identity on {0,1}, or replaced by add_arm "
         "mid-history; distinct = (neighbourhood, binarizer sequence, history skeleton)")
-BUDGET = {"quick": {"cases": 6 * 40, "shards": 8}, "thorough": {"cases": 6 * 3000, "shards": 16, "wall_s": 2400}}
+BUDGET = {"quick": {"cases": 6 * 120, "shards": 16}, "thorough": {"cases": 6 * 6000, "shards": 16, "wall_s": 3600}}
 MIN = {"quick": {"evaluations": 600, "nontrivial": 100}, "thorough": {"evaluations": 40000, "nontrivial": 6000}}
 ASSUMPTIONS = ["binarizers are deterministic functions of (arm, reward) returning 0/1",
                "K3 classifier: a mismatch on TreeBandit is attributed to the known finding only if a defect-aware model (stored "
@@ -68,6 +68,9 @@ def run_case(rs, ctx):
     n_ops = int(rs.integers(4, 12))
     plan = ["fit"] + [gen.pick(rs, KINDS) for _ in range(n_ops)] + ["query"]
     few_values = bool(rs.integers(2))
+    big_ints = b0 == "thr_big" and p != "tree" and bool(rs.integers(2))
+    if big_ints:
+        ctx.count("big_integer_reward_histories")
     replaced = False
     for step, k in enumerate(plan):
         if k in ("fit", "partial_fit"):
@@ -75,6 +78,10 @@ def run_case(rs, ctx):
                              else (24000, 31000))[0]
             if few_values:
                 op["r"] = [float(int(v) % 5) for v in op["r"]]  # rating-like rewards: the same (decision, reward) pairs recur
+            if big_ints:
+                # very large integer rewards in an int64 array: consecutive integers above 2^53 are distinct observations
+                op["r"] = [2 ** 53 + int(v) % 7 for v in op["r"]]
+                op["r_dtype"] = "int64"
             opB = dict(op, r=conv(binarizers.ALL[cur], op["d"], op["r"]))
         elif k in ("add_arm", "add_arm_b"):
             o = gen.gen_ops(rs, cfgA, sh, 1, ["add_arm"])
@@ -83,7 +90,7 @@ def run_case(rs, ctx):
             op = o[0]
             opB = dict(op)
             if k == "add_arm_b":
-                nb = gen.pick(rs, NAMES)
+                nb = "thr_big" if big_ints else gen.pick(rs, NAMES)
                 op = dict(op, binarizer=nb)
                 replaced |= nb != cur
                 cur = nb
